@@ -293,3 +293,48 @@ end
 end
 
 end Avro
+
+namespace Avro
+
+/-! ### The documented normalisations of C01, written from the property statement
+
+`normSpec T oe g`: the value that must be read back for a value `g` of Go type `T` written in a field
+whose tag has (`oe = true`) or has not `omitempty`:
+* nil and empty slices, maps and byte strings are identified (our `GoVal` already identifies nil and
+  empty slices / byte strings; for maps the nil flag is set exactly when the map is empty), also
+  behind a pointer to a slice or map (`*[]T`, `*map`, whose schema is the plain array / map);
+* a zero value in an omitempty field reads back as the zero value (−0.0 becomes +0.0);
+* an invalid `null.*` wrapper carries no payload;
+* times compare by instant and UTC offset (the value itself).
+Everything else must come back unchanged. -/
+def normSpecD (dev : Nat) : Nat → GoType → Bool → GoVal → GoVal
+  | 0, _, _, g => g
+  | fuel + 1, T, oe, g =>
+    match T.strip, g with
+    | .float32, .f32 b => if oe && isZeroF32 b then .f32 0 else .f32 b
+    | .float64, .f64 b => if oe && isZeroF64 b then .f64 0 else .f64 b
+    | .slice e, .slice items => .slice (items.map (normSpecD dev fuel e false))
+    | .map _ v, .map _ ks vs => .map ks.isEmpty ks (vs.map (normSpecD dev fuel v false))
+    | .ptr (.slice e), .ptr none => if e.strip matches .uint 8 then .ptr none else .ptr (some (.slice []))
+    | .ptr (.map _ _), .ptr none => .ptr (some (.map true [] []))
+    | .ptr e, .ptr (some x) =>
+      let x' := normSpecD dev fuel e false x
+      if dev != 0 then
+        -- the two recorded deviations (known findings D27: dev odd, D30: dev ≥ 2), applied only to explain a mismatch
+        match e.strip, x', x with
+        | .ptr _, .ptr none, _ => if dev ≥ 2 then .ptr none else .ptr (some x')
+        | .nullT _, _, .nullw false p => if dev % 2 == 1 then .ptr (some (.nullw true p)) else .ptr (some x')
+        | _, _, _ => .ptr (some x')
+      else .ptr (some x')
+    | .struct _ _ fs, .struct gs =>
+      .struct (List.zipWith (fun (f : GoField) g => normSpecD dev fuel f.type (omitEmptyTag f.jsonTag) g) fs gs)
+    | .nullT k, .nullw false _ =>
+      .nullw false (match k with
+        | .int => .int 0 | .bool => .bool false | .double => .f64 0 | .float => .f64 0
+        | .string => .str [] | .time => .time TimeVal.zero)
+    | _, g => g
+
+/-- The documented normalisations only. -/
+abbrev normSpec := normSpecD 0
+
+end Avro
